@@ -38,7 +38,7 @@ class Rng:
 
 def build_host():
     shutil.copyfile("/repo/Cargo.lock", os.path.join(HOST, "Cargo.lock"))
-    rc, out = sh(["cargo", "+nightly", "build", "--offline"], cwd=HOST)
+    rc, out = sh(["cargo", "+nightly", "build", "--offline", "--target-dir", TARGET], cwd=HOST)
     if rc != 0:
         raise Harness("nightly build of the real proc-macro failed:\n" + out[-4000:])
     deps = os.path.join(TARGET, "debug", "deps")
